@@ -38,7 +38,7 @@ def pick_tagged(env, e, inp, key, tags, name):
 class Connectives(Harness):
     name = 'C12.connectives'
     prop = 'C12'
-    doc = 'AND / OR / XOR over k arguments (flat, or the first two inside an array literal) of logicals, integers, ' \
+    doc = 'AND / OR / XOR over k arguments (flat, the first two inside an array literal, or nested three arrays deep) of logicals, integers, ' \
           'floats and blanks = conjunction / disjunction / parity of truth values; an error argument yields an error'
     functions = ('logic.AND', 'logic.OR', 'logic.XOR', 'utils.iflatten', 'grammarparser.parser.p_array')
     bounds = 'k <= 3 arguments (quick) / 6 (thorough); every tag combination; integer and float values unbounded; one ' \
@@ -52,6 +52,9 @@ class Connectives(Harness):
                 out.append({'fn': fn, 'k': k, 'nested': False, 'err': -1})
                 if k >= 2:
                     out.append({'fn': fn, 'k': k, 'nested': True, 'err': -1})
+                if k >= 3:
+                    out.append({'fn': fn, 'k': k, 'nested': 'deep', 'err': -1})
+                    out.append({'fn': fn, 'k': k, 'nested': 'deep', 'err': k - 1})
                 for ep in range(k):
                     out.append({'fn': fn, 'k': k, 'nested': k >= 2 and ep % 2 == 1, 'err': ep})
         return out
@@ -61,6 +64,9 @@ class Connectives(Harness):
 
     def formula(self, p):
         names = ['v%s' % 'abcdef'[i] for i in range(p['k'])]
+        if p['nested'] == 'deep':
+            # arrays nested three deep: {a,{b,{c}}}
+            return '%s({%s,{%s,{%s}}}%s)' % (p['fn'], names[0], names[1], names[2], ''.join(',' + n for n in names[3:]))
         if p['nested']:
             return '%s({%s,%s}%s)' % (p['fn'], names[0], names[1], ''.join(',' + n for n in names[2:]))
         return '%s(%s)' % (p['fn'], ','.join(names))
@@ -142,12 +148,12 @@ class IfsSwitch(Harness):
     doc = 'IFS: value paired with the first true condition else #N/A; SWITCH: result paired with the first case equal ' \
           'to the target, else the default, else #N/A; an error condition / target yields that error'
     functions = ('logic.IFS', 'logic.SWITCH')
-    bounds = 'IFS: 1..3 pairs, conditions logical/int/blank (or one error), values symbolic ints; SWITCH: target and ' \
-             'cases symbolic ints or 1-char texts, 1..3 cases, with and without default'
+    bounds = 'IFS: 1..4 pairs, conditions logical/int/blank (or one error), values symbolic ints; SWITCH: target and ' \
+             'cases symbolic ints or 1-char texts, 1..4 cases (repeated cases arise symbolically), with and without default'
 
     def cases(self, tier):
         out = []
-        for k in (1, 2, 3):
+        for k in (1, 2, 3, 4):
             out.append({'fn': 'IFS', 'k': k, 'err': -1})
             for ep in range(k):
                 out.append({'fn': 'IFS', 'k': k, 'err': ep})
@@ -181,9 +187,9 @@ class IfsSwitch(Harness):
             for i in range(k):
                 tags = ERR8 if i == p['err'] else ['bool', 'int', 'blank']
                 tag, c = pick_tagged(env, e, inp, 'c%d' % i, tags, 'c%d' % i)
-                vals['vc%s' % 'abc'[i]] = c
-                vals['vr%s' % 'abc'[i]] = inp['vals'][i]
-                args += ['vc%s' % 'abc'[i], 'vr%s' % 'abc'[i]]
+                vals['vc%s' % 'abcd'[i]] = c
+                vals['vr%s' % 'abcd'[i]] = inp['vals'][i]
+                args += ['vc%s' % 'abcd'[i], 'vr%s' % 'abcd'[i]]
             return self.parse_with(env, 'IFS(%s)' % ','.join(args), vals)
         vals = {'vt': inp['target']}
         if p['kind'] == 'err':
@@ -191,9 +197,9 @@ class IfsSwitch(Harness):
             vals['vt'] = t
         args = ['vt']
         for i in range(k):
-            vals['vc%s' % 'abc'[i]] = inp['cases'][i]
-            vals['vr%s' % 'abc'[i]] = inp['vals'][i]
-            args += ['vc%s' % 'abc'[i], 'vr%s' % 'abc'[i]]
+            vals['vc%s' % 'abcd'[i]] = inp['cases'][i]
+            vals['vr%s' % 'abcd'[i]] = inp['vals'][i]
+            args += ['vc%s' % 'abcd'[i], 'vr%s' % 'abcd'[i]]
         if p['default']:
             vals['vd'] = inp['default']
             args.append('vd')
